@@ -20,15 +20,40 @@ theorem uncompleted_not_done (cf : Conf) (g : G) (order : List Nat) (r : Nat)
   simp only [shouldTerminate, abandoned, failsConsec, Bool.or_eq_false_iff] at h2
   exact h2.1.1.1
 
-/-- **Containment** (non-interference). Let `r` be a run that has no build of
-its own that could fail (`NoBuild`) and shares its executable with no run that
-gets a 127 (`NoSharedNF`). Then, whatever the other runs do (fail from the
-start, fail after k successes, have missing binaries of other executables,
-failing builds, unknown adapters), under every sequential scheduler and every
-choice stream: the processes started and the data recorded for `r` (its
-projection of the session trace) and `r`'s final state are exactly those of `r`
-executed alone, as often as it was picked. -/
+/-- **Containment** (non-interference). Let `r` be a run none of whose own build
+commands fails (`BuildsOk`: it shares no failed build) and that shares its
+executable with no run that gets a 127 (`NoSharedNF`). Then, whatever the other
+runs do (fail from the start, fail after k successes, have missing binaries of
+other executables, failing builds, unknown adapters), under every sequential
+scheduler and every choice stream: the processes started and the data recorded
+for `r` (its projection of the session trace, build commands aside — which run
+triggers a shared build depends on the order) and `r`'s final state are exactly
+those of `r` executed alone, as often as it was picked. `BstSound` holds for the
+empty build table every session starts with (`bstSound_fresh`). -/
 theorem c10_containment (cf : Conf) (k : Kind) (g : G) (order cs : List Nat) (r : Nat)
+    (hb : BuildsOk cf r) (hsound : BstSound cf g) (hns : NoSharedNF cf r g) (hnd : order.Nodup) :
+    projR r (session cf k g order cs).trace
+        = (solo (runSys cf) r ((session cf k g order cs).picks.count r) (g.rs r)).2 ∧
+    (session cf k g order cs).g.rs r
+        = (solo (runSys cf) r ((session cf k g order cs).picks.count r) (g.rs r)).1 := by
+  have := seq_run_spec_builds cf k r hb cs g (uncompleted cf g order) (hnd.sublist List.filter_sublist) hns hsound
+    (uncompleted_not_done cf g order r)
+  exact ⟨this.1, this.2.1⟩
+
+theorem bstSound_fresh (cf : Conf) (g : G) (h : ∀ b, g.bst b = none) : BstSound cf g := by
+  intro b hb; rw [h b] at hb; exact absurd hb (by simp)
+
+/-- non-vacuity: a run with a succeeding executor build next to a run whose build fails -/
+example : let cf : Conf := { run := fun i => { cfg := { N := 1, retries := 0 }, exe := i, builds := [i] },
+                             buildOk := fun b => b != 1 }
+    let g : G := { rs := fun _ => { script := [.exit 0 false 1] } }
+    BuildsOk cf 0 ∧ BstSound cf g ∧
+    (session cf .batch g [1, 0] [0, 0, 0]).trace = [(1, .build 1), (0, .build 0), (0, .start 1), (0, .record 1 1)] ∧
+    projR 0 (session cf .batch g [1, 0] [0, 0, 0]).trace = [.start 1, .record 1 1] := by
+  refine ⟨Or.inr (by intro b hb; simp at hb; subst hb; rfl), bstSound_fresh _ _ (fun _ => rfl), by decide, by decide⟩
+
+/-- the same without build commands of its own: also no build event is attributed to `r` -/
+theorem c10_containment_nobuild (cf : Conf) (k : Kind) (g : G) (order cs : List Nat) (r : Nat)
     (hb : NoBuild cf r) (hns : NoSharedNF cf r g) (hnd : order.Nodup) :
     proj r (session cf k g order cs).trace
         = (solo (runSys cf) r ((session cf k g order cs).picks.count r) (g.rs r)).2 ∧
@@ -67,14 +92,14 @@ otherwise arbitrary — other runs, their outcomes, scheduler, choice stream, or
 same final state (completed or abandoned alike). -/
 theorem c10_containment_closed (cf cf' : Conf) (k k' : Kind) (g g' : G) (order order' cs cs' : List Nat) (r : Nat)
     (hcf : cf.run r = cf'.run r) (hg : g.rs r = g'.rs r)
-    (hb : NoBuild cf r) (hb' : NoBuild cf' r) (hns : NoSharedNF cf r g) (hns' : NoSharedNF cf' r g')
+    (hb : BuildsOk cf r) (hb' : BuildsOk cf' r) (hsound : BstSound cf g) (hsound' : BstSound cf' g') (hns : NoSharedNF cf r g) (hns' : NoSharedNF cf' r g')
     (hnd : order.Nodup) (hnd' : order'.Nodup) (hin : r ∈ order) (hin' : r ∈ order')
     (hfin : (session cf k g order cs).finished = true) (hfin' : (session cf' k' g' order' cs').finished = true) :
-    proj r (session cf k g order cs).trace = proj r (session cf' k' g' order' cs').trace ∧
+    projR r (session cf k g order cs).trace = projR r (session cf' k' g' order' cs').trace ∧
     (session cf k g order cs).g.rs r = (session cf' k' g' order' cs').g.rs r := by
-  have A := seq_run_spec cf k r hb cs g (uncompleted cf g order) (hnd.sublist List.filter_sublist) hns
+  have A := seq_run_spec_builds cf k r hb cs g (uncompleted cf g order) (hnd.sublist List.filter_sublist) hns hsound
     (uncompleted_not_done cf g order r)
-  have B := seq_run_spec cf' k' r hb' cs' g' (uncompleted cf' g' order') (hnd'.sublist List.filter_sublist) hns'
+  have B := seq_run_spec_builds cf' k' r hb' cs' g' (uncompleted cf' g' order') (hnd'.sublist List.filter_sublist) hns' hsound'
     (uncompleted_not_done cf' g' order' r)
   simp only [session] at hfin hfin' ⊢
   obtain ⟨a1, a2, a3, a4⟩ := A
